@@ -87,36 +87,38 @@ theorem definedList_none : ∀ (ts : List STree), definedList none ts = true
 mutual
 theorem walkList_pruned : ∀ (ts : List STree) (base : List PortT) (path : List Nat) (rt : Option Obj) (i : Nat)
     (pre J : Buf), wfList ts = true → NoGuards ts = true → definedList rt ts = true →
-    NulFree pre → pre ≠ [] → needList ts ≤ J.length →
+    NulFree pre → pre ≠ [] → needList ts ≤ J.length → (rt ≠ none → pre.length + needList ts + 10 ≤ SCRATCH) →
     ∃ J', walkList {} base path rt pre.length (toPorts ts) i (pre ++ 0 :: J) =
         .ok (prunedList pre path rt ts i, pre ++ 0 :: J') ∧ J'.length = J.length
-  | [], base, path, rt, i, pre, J, _, _, _, _, _, _ => ⟨J, by simp [toPorts, walkList, prunedList], rfl⟩
-  | t :: r, base, path, rt, i, pre, J, hwf, hng, hdef, hpre, hne, hcap => by
+  | [], base, path, rt, i, pre, J, _, _, _, _, _, _, _ => ⟨J, by simp [toPorts, walkList, prunedList], rfl⟩
+  | t :: r, base, path, rt, i, pre, J, hwf, hng, hdef, hpre, hne, hcap, hlen => by
     simp only [wfList, Bool.and_eq_true] at hwf
     simp only [NoGuards, Bool.and_eq_true] at hng
     simp only [definedList, Bool.and_eq_true] at hdef
-    simp only [needList] at hcap
+    simp only [needList] at hcap hlen
     obtain ⟨s, J1, hs, h1, l1⟩ := walkPort_pruned t base path rt i pre J hwf.1 hng.1 hdef.1 hpre hne (by omega)
+      (fun h => by have := hlen h; omega)
     obtain ⟨J2, h2, l2⟩ := erase_spec pre s J1 hs
     obtain ⟨J3, h3, l3⟩ := walkList_pruned r base path rt (i + 1) pre J2 hwf.2 hng.2 hdef.2 hpre hne (by omega)
+      (fun h => by have := hlen h; omega)
     refine ⟨J3, ?_, by omega⟩
     simp only [toPorts, walkList, h1, h2, h3, prunedList]
 theorem walkPort_pruned : ∀ (t : STree) (base : List PortT) (path : List Nat) (rt : Option Obj) (i : Nat)
     (pre J : Buf), t.wf = true → t.noGuards = true → definedTree rt t = true →
-    NulFree pre → pre ≠ [] → t.need ≤ J.length →
+    NulFree pre → pre ≠ [] → t.need ≤ J.length → (rt ≠ none → pre.length + t.need + 10 ≤ SCRATCH) →
     ∃ s J', NulFree s ∧
       walkPort {} base path rt pre.length i t.toPort (pre ++ 0 :: J) =
         .ok (prunedTree pre (path ++ [i]) rt t, pre ++ s ++ 0 :: J') ∧
       s.length + J'.length = J.length
-  | .leaf w md, base, path, rt, i, pre, J, hwf, _, _, hpre, _, hcap => by
+  | .leaf w md, base, path, rt, i, pre, J, hwf, _, _, hpre, _, hcap, _ => by
     obtain ⟨s, J', h1, h2, h3⟩ := walkPort_leaf base path rt i w md pre J (by simpa [STree.wf, WName.leafOk] using hwf) hpre hcap
     exact ⟨s, J', h1, by simpa [codeTree, prunedTree] using h2, h3⟩
-  | .sub w md kids, base, path, rt, i, pre, J, hwf, hng, hdef, hpre, hne, hcap => by
+  | .sub w md kids, base, path, rt, i, pre, J, hwf, hng, hdef, hpre, hne, hcap, hlen => by
     simp only [STree.wf, Bool.and_eq_true] at hwf
     simp only [STree.noGuards, Bool.and_eq_true] at hng
     obtain ⟨hok, hheadne, hslash, hpos⟩ := WName.subOk_spec hwf.1
     obtain ⟨hhead, hparts, htypes⟩ := WName.ok_spec hok
-    simp only [STree.need] at hcap
+    simp only [STree.need] at hcap hlen
     have hname : w.render = w.head ++ renderParts w.parts ++ 47 :: renderTypes w.types := by
       simp [WName.render, WName.body, hslash, slashIf]
     let L := (pre ++ 0 :: J).length
@@ -155,7 +157,7 @@ theorem walkPort_pruned : ∀ (t : STree) (base : List PortT) (path : List Nat) 
       cases rt with
       | none =>
         obtain ⟨Y'', h1, l1⟩ := walkList_pruned kids (toPorts kids) (path ++ [i]) none 0 (pre ++ w.head ++ a ++ [47]) Y'
-          hwf.2 hng.2 (definedList_none kids) hQ hQne hroom
+          hwf.2 hng.2 (definedList_none kids) hQ hQne hroom (fun h => absurd rfl h)
         refine ⟨Y'', ?_, l1⟩
         simp only [k, recurseGate, calls]
         rw [walkTable_noguard _ kids _ _ _ _ hQ hQne hng.2, h1]
@@ -163,6 +165,12 @@ theorem walkPort_pruned : ∀ (t : STree) (base : List PortT) (path : List Nat) 
       | some obj =>
         have hrel : cstrAt ((pre ++ w.head ++ a ++ [47]) ++ 0 :: Y') pre.length = .ok (w.head ++ a ++ [47]) := by
           rw [eQ]; exact cstrAt_mid pre _ Y' hrelnul
+        have hloc : cstrAt ((pre ++ w.head ++ a ++ [47]) ++ 0 :: Y') 0 = .ok (pre ++ w.head ++ a ++ [47]) :=
+          cstrAt_zero _ Y' hQ
+        have hlen' := hlen (by simp)
+        have hfit : ¬ ((pre ++ w.head ++ a ++ [47]).length + 10 > SCRATCH) := by
+          simp only [List.length_append, List.length_cons, List.length_nil]
+          omega
         simp only [definedTree, List.all_eq_true] at hdef
         have hd := hdef a ha
         cases hkid : obj.kid (w.head ++ a ++ [47]) with
@@ -171,15 +179,16 @@ theorem walkPort_pruned : ∀ (t : STree) (base : List PortT) (path : List Nat) 
           cases v with
           | none =>
             refine ⟨Y', ?_, rfl⟩
-            simp only [k, recurseGate, hrel, hkid, calls, hdrop]
+            simp only [k, recurseGate, hloc, hfit, ↓reduceIte, hrel, hkid, calls, hdrop]
           | some c =>
             simp only [hkid] at hd
             obtain ⟨Y'', h1, l1⟩ := walkList_pruned kids (toPorts kids) (path ++ [i]) (some c) 0
               (pre ++ w.head ++ a ++ [47]) Y' hwf.2 hng.2 hd hQ hQne hroom
+              (fun _ => by simp only [List.length_append, List.length_cons, List.length_nil]; omega)
             refine ⟨Y'', ?_, l1⟩
             have hen := portIsEnabled_unguarded i (.mk w.render md true (toPorts kids))
               ((pre ++ w.head ++ a ++ [47]) ++ 0 :: Y') base path (some obj) true (some c) (by simpa [PortT.metadata] using hng.1)
-            simp only [k, recurseGate, hrel, hkid, hen, calls, hdrop, ↓reduceIte]
+            simp only [k, recurseGate, hloc, hfit, hrel, hkid, hen, calls, hdrop, ↓reduceIte]
             rw [walkTable_noguard _ kids _ _ _ _ hQ hQne hng.2, h1]
             simp
     obtain ⟨s, Y'', hs, h2, l2⟩ := recurse0_spec k calls (renderTypes w.types)
@@ -215,10 +224,10 @@ end
 /-- `walk_ports` with a runtime object on a tree without guards -/
 theorem walkPorts_pruned (ts : List STree) (rt : Option Obj) (pre J : Buf) (hwf : TreeWF ts)
     (hng : NoGuards ts = true) (hpre : PrefixOk pre) (hcap : needList ts ≤ J.length)
-    (hdef : RuntimeDefined ts rt) :
+    (hlen : pre.length + needList ts + 10 ≤ SCRATCH) (hdef : RuntimeDefined ts rt) :
     ∃ J', walkPorts {} (toPorts ts) rt (pre ++ 0 :: J) = .ok (prunedList pre [] rt ts 0, pre ++ 0 :: J') ∧
       J'.length = J.length := by
-  obtain ⟨J', h1, l1⟩ := walkList_pruned ts (toPorts ts) [] rt 0 pre J hwf hng hdef hpre.2 hpre.1 hcap
+  obtain ⟨J', h1, l1⟩ := walkList_pruned ts (toPorts ts) [] rt 0 pre J hwf hng hdef hpre.2 hpre.1 hcap (fun _ => hlen)
   refine ⟨J', ?_, l1⟩
   rw [walkPorts, walkTable_noguard _ ts _ _ _ _ hpre.2 hpre.1 hng, h1]
 
